@@ -173,6 +173,7 @@ struct Agg {
     harness_errors: Vec<String>,
     crashes: Vec<(u64, u64, String)>,
     loghashes: BTreeMap<u64, String>,
+    priors: BTreeMap<u64, Vec<u64>>,
 }
 
 impl Agg {
@@ -257,7 +258,9 @@ fn run_batch(check: &str, tier: &str, base: u64, first: u64, n: u64, workers: us
     let next = Arc::new(AtomicU64::new(first));
     let end = first + n;
     let stop = Arc::new(AtomicBool::new(false));
-    let (tx, rx) = mpsc::channel::<(u64, Reply)>();
+    // (run index, reply, the run indices this worker process executed before it — only for runs
+    // that report a violation; needed when the code under test keeps state across worlds)
+    let (tx, rx) = mpsc::channel::<(u64, Reply, Vec<u64>)>();
     // (pid, busy since) per worker, for the watchdog
     let busy: Arc<Mutex<Vec<Option<(u32, Instant)>>>> = Arc::new(Mutex::new(vec![None; workers]));
     let start = Instant::now();
@@ -271,6 +274,7 @@ fn run_batch(check: &str, tier: &str, base: u64, first: u64, n: u64, workers: us
         let tier = tier.to_string();
         handles.push(std::thread::spawn(move || {
             let mut w: Option<Worker> = None;
+            let mut hist: Vec<u64> = Vec::new();
             loop {
                 if stop.load(Ordering::SeqCst) {
                     break;
@@ -283,10 +287,11 @@ fn run_batch(check: &str, tier: &str, base: u64, first: u64, n: u64, workers: us
                     match Worker::spawn() {
                         Ok(x) => w = Some(x),
                         Err(e) => {
-                            let _ = tx.send((idx, Reply::Fatal(e)));
+                            let _ = tx.send((idx, Reply::Fatal(e), Vec::new()));
                             break;
                         }
                     }
+                    hist.clear();
                 }
                 let wk = w.as_mut().unwrap();
                 busy.lock().unwrap()[wi] = Some((wk.pid(), Instant::now()));
@@ -294,7 +299,12 @@ fn run_batch(check: &str, tier: &str, base: u64, first: u64, n: u64, workers: us
                 let r = wk.request(&json!({"cmd": "gen", "check": check, "seed": seed, "tier": tier}));
                 busy.lock().unwrap()[wi] = None;
                 let dead = !matches!(r, Reply::Report(_));
-                let _ = tx.send((idx, r));
+                let prior = match &r {
+                    Reply::Report(rep) if !rep.violations.is_empty() => hist.clone(),
+                    _ => Vec::new(),
+                };
+                let _ = tx.send((idx, r, prior));
+                hist.push(idx);
                 if dead {
                     w = None;
                 }
@@ -330,9 +340,14 @@ fn run_batch(check: &str, tier: &str, base: u64, first: u64, n: u64, workers: us
         })
     };
     let mut pool = Pool { agg: Agg::default(), fatal: None };
-    for (idx, reply) in rx {
+    for (idx, reply, prior) in rx {
         match reply {
-            Reply::Report(r) => pool.agg.absorb(idx, *r),
+            Reply::Report(r) => {
+                if !prior.is_empty() {
+                    pool.agg.priors.insert(idx, prior);
+                }
+                pool.agg.absorb(idx, *r)
+            }
             Reply::Died(how) => {
                 let how = if hung.lock().unwrap().is_empty() { how } else { format!("hang (> {} s wall, killed) / {}", WATCHDOG_SECS, how) };
                 pool.agg.crashes.push((idx, run_seed(base, check, idx), how));
@@ -371,7 +386,29 @@ struct Finding {
 }
 
 /// Minimise, write the replay file, replay it in a fresh process.
-fn process_violation(check: &str, base: u64, idx: u64, v: &Violation, budget_execs: usize, budget_secs: u64) -> Finding {
+/// Execute, in ONE fresh process, the generated runs `prior` (by run index) and then `scn`;
+/// return the last report.
+fn exec_after_history(check: &str, tier: &str, base: u64, prior: &[u64], scn: &Value) -> Reply {
+    let mut w = match Worker::spawn() {
+        Ok(w) => w,
+        Err(e) => return Reply::Fatal(e),
+    };
+    for p in prior {
+        let seed = run_seed(base, check, *p);
+        match w.request(&json!({"cmd": "gen", "check": check, "seed": seed, "tier": tier})) {
+            Reply::Report(_) => {}
+            other => return other,
+        }
+    }
+    let (w, r) = exec_with_watchdog(Some(w), scn);
+    if let Some(w) = w {
+        w.quit();
+    }
+    r
+}
+
+#[allow(clippy::too_many_arguments)]
+fn process_violation(check: &str, tier: &str, base: u64, idx: u64, v: &Violation, prior: &[u64], budget_execs: usize, budget_secs: u64) -> Finding {
     let dir = format!("{}/replays", verif_dir());
     let _ = std::fs::create_dir_all(&dir);
     let mut budget = shrink::Budget::new(budget_execs, budget_secs);
@@ -449,6 +486,47 @@ fn process_violation(check: &str, base: u64, idx: u64, v: &Violation, budget_exe
             }
         }
     }
+    // Last resort: the violation needs what the code under test remembered from worlds that ran
+    // earlier in the same process (a process-wide cache, a lazily initialised static). Re-execute
+    // the worker's history in one fresh process, then shrink the history.
+    let mut prelude: Vec<u64> = Vec::new();
+    if !reproduced && !prior.is_empty() && !scn0.is_null() {
+        let hit = |hist: &[u64]| -> Option<Violation> {
+            match exec_after_history(check, tier, base, hist, &scn0) {
+                Reply::Report(rep) => same_violation(&rep, &prop, &sig).or_else(|| rep.violations.iter().find(|x| x.property == prop).cloned()),
+                _ => None,
+            }
+        };
+        if let Some(nv) = hit(prior) {
+            reproduced = true;
+            fv = nv;
+            min = scn0.clone();
+            let mut cur: Vec<u64> = prior.to_vec();
+            let t0 = Instant::now();
+            let limit = Duration::from_secs(budget_secs.max(20) * 2);
+            // shortest suffix first (doubling), then drop single elements
+            let mut k = 1;
+            while k < cur.len() && t0.elapsed() < limit {
+                let suf = cur[cur.len() - k..].to_vec();
+                if hit(&suf).is_some() {
+                    cur = suf;
+                    break;
+                }
+                k *= 2;
+            }
+            let mut i = 0;
+            while i < cur.len() && cur.len() > 1 && t0.elapsed() < limit {
+                let mut cand = cur.clone();
+                cand.remove(i);
+                if hit(&cand).is_some() {
+                    cur = cand;
+                } else {
+                    i += 1;
+                }
+            }
+            prelude = cur;
+        }
+    }
     fv.scenario = min.clone();
     let seed = run_seed(base, check, idx);
     let name = format!("{}-{}-{:016x}.json", check, sanitize(&sig), seed);
@@ -458,6 +536,8 @@ fn process_violation(check: &str, base: u64, idx: u64, v: &Violation, budget_exe
         "found_by": {"check": check, "verif_seed": base, "run_index": idx, "run_seed": seed},
         "minimisation": {"executions": budget.execs, "reproduced_in_fresh_process": reproduced},
         "observed": fv.detail,
+        "prelude_note": if prelude.is_empty() { Value::Null } else { json!("the scenarios in `prelude` are executed first, in this order, in the same process: the violation depends on state the code under test keeps across simulated worlds") },
+        "prelude": prelude.iter().map(|p| profiles::generate(check, run_seed(base, check, *p), profiles::tier_from(tier))).collect::<Vec<_>>(),
         "scenario": min,
     });
     let _ = std::fs::write(&path, serde_json::to_string_pretty(&file).unwrap_or_default());
@@ -612,7 +692,8 @@ pub fn check_main(args: &[String]) -> i32 {
     for (_k, (idx, v, _n)) in by_sig.iter().take(max_processed) {
         let left = total_secs.saturating_sub(t_min.elapsed().as_secs());
         let (e, s) = if left == 0 { (0, 0) } else { (b_execs, b_secs.min(left)) };
-        findings.push(process_violation(&check, base, *idx, v, e, s));
+        let prior = agg.priors.get(idx).cloned().unwrap_or_default();
+        findings.push(process_violation(&check, tier, base, *idx, v, &prior, e, s));
     }
 
     let mut unknown = 0u64;
@@ -755,14 +836,38 @@ pub fn replay_main(args: &[String]) -> i32 {
     };
     let prop = file["property"].as_str().unwrap_or(check).to_string();
     let sig = file["signature"].as_str().unwrap_or("").to_string();
+    let prelude: Vec<Value> = file.get("prelude").and_then(Value::as_array).cloned().unwrap_or_default();
+    let exec = |scn: &Value| -> Reply {
+        if prelude.is_empty() {
+            return exec_fresh(scn);
+        }
+        let mut w = match Worker::spawn() {
+            Ok(w) => w,
+            Err(e) => return Reply::Fatal(e),
+        };
+        for p in &prelude {
+            match w.request(&json!({"cmd": "exec", "scenario": p})) {
+                Reply::Report(_) => {}
+                other => return other,
+            }
+        }
+        let (w, r) = exec_with_watchdog(Some(w), scn);
+        if let Some(w) = w {
+            w.quit();
+        }
+        r
+    };
+    if !prelude.is_empty() {
+        println!("replay: executing {} prelude scenario(s) in the same process first", prelude.len());
+    }
     let run = |label: &str| -> Option<(bool, String)> {
-        match exec_fresh(&file["scenario"]) {
+        match exec(&file["scenario"]) {
             Reply::Report(rep) => {
                 if let Some(e) = &rep.harness_error {
                     println!("HARNESS-ERROR: {}", e);
                     return None;
                 }
-                let hit = same_violation(&rep, &prop, &sig);
+                let hit = same_violation(&rep, &prop, &sig).or_else(|| rep.violations.iter().find(|v| v.property == prop).cloned());
                 println!("replay[{}]: loghash={} violations={}", label, rep.loghash, rep.violations.len());
                 if let Some(v) = &hit {
                     println!("  clause={} signature={}", v.clause, v.signature);
